@@ -83,6 +83,11 @@ fn text_case(a: &[u8], b: &[u8], toks: &[usize], algs: &[Algorithm], out: &mut L
                     continue;
                 }
                 if ty == 2 {
+                    // (kept to moderately sized texts: a defect that makes equal tokens unequal turns a
+                    // 65 536-line diff into an hour-long one, which would only be seen as a hang)
+                    if a.len().max(b.len()) > 120_000 {
+                        continue;
+                    }
                     odd_case(tok, alg, std::str::from_utf8(a).unwrap(), std::str::from_utf8(b).unwrap(), out);
                     continue;
                 }
